@@ -196,7 +196,7 @@ Qed.
 Theorem paths_deny_refuted : exists p held t a,
   unguarded_known p = false /\ In (t, a) (required p) /\ held t a = false /\ fst (run held (program p)) = OOk.
 Proof.
-  exists P_delete_where_subquery, (held_of [(TU, ADel)]), TS, ASel. vm_compute. repeat split. right. left. reflexivity.
+  exists P_window_partition_subquery, (held_of [(TM, ASel)]), TS, ASel. vm_compute. repeat split. right. left. reflexivity.
 Qed.
 
 (** "and changes nothing": on every path outside the partial-truncate class a refused statement has written nothing *)
